@@ -133,7 +133,7 @@ pub fn check_case(c: &Case, env: &Env) -> CheckResult {
             It::Raw { n, .. } => p += *n as usize,
         }
     }
-    let s = RStream { cfg: c.rcfg, model: &model, starts: &starts, tables: &env.tables };
+    let s = RStream { cfg: c.rcfg, model: &model, starts: &starts, tables: &env.tables, free_codes: &[] };
     let mut replaced = 0;
     let rops = reader_ops(c, env, &mut replaced);
     if replaced > 0 {
